@@ -20,6 +20,13 @@ RULE = ('container histories (strings over {change,file}, every change '
         'Writer and reader are each judged alone against the spec serializer '
         'and then against each other. Non-trivial = >= 2 containers declare '
         'different encodings; distinct = recipe fingerprint.')
+RULE += (
+         ' Also: exotic argument objects (str-subclass encodings) must give '
+         'identical bytes; 2-4 readers over documents with different '
+         'encodings at work at once (seeded scheduler, interleaved '
+         'generators) must each yield what they yield alone. Process axes '
+         '(DESIGN 2.8): 2 of 16 shards run under python -O, 4 of 16 after a '
+         'hostile warm-up of the library.')
 FLOOR = {'quick': 1500, 'thorough': 30000}
 REQUIRED_REACH = ['reader.py:', 'writer.py:']
 REQUIRED_COUNTERS = ['reader_sections_checked', 'writer_bytes_checked',
